@@ -39,7 +39,7 @@ func streamKeyconv() {
 		cases = append(cases, kc{[]string{"Cb", "F#", "Db", "D#m"}[(n/2)%4], strings.Repeat(unit, n/2)})
 	}
 	// long runs of one step in one direction (more than one turn of the circle), alone and between other steps
-	for _, n := range []int{13, 14, 23, 24, 25, 26, 35, 37, 49, 61, 100, 121} {
+	for _, n := range []int{13, 14, 23, 24, 25, 26, 35, 37, 49, 61, 100, 121, 127, 128, 129, 255, 256, 257, 258, 300, 511, 512, 513, 1000, 65535, 65536, 65537} {
 		for _, c := range []string{"s", "d"} {
 			cases = append(cases, kc{keys28[r.Intn(28)], strings.Repeat(c, n)}, kc{keys28[r.Intn(28)], "p" + strings.Repeat(c, n) + "r"},
 				kc{keys28[r.Intn(28)], strings.Repeat("d", 3) + strings.Repeat(c, n) + "ds"})
